@@ -69,6 +69,10 @@ def call_patterns(k, nparams, tier):
         pats.append([("for", "int", "i", ("range", 1, 4, None), [loopcall])])
         pats.append([("decl", "float", "v", N("0.5")), ("stmt", "Sub", [], kwv(V("v"), B("-", V("v"), N("1"))), [N(m) for m in a], "sq" if k > 1 else "none"),
                      ("decl", "float", "v", N("2.5")), ("stmt", "Sub", [], kwv(V("v"), B("-", V("v"), N("1"))), [N(m) for m in a], "sq" if k > 1 else "none")])
+    # a loop body that mixes ordinary operations with the included one (the order inside every iteration counts)
+    G2 = lambda nm, m: ("stmt", nm, [V("i")], [], [m], "none")
+    loopsub = ("stmt", "Sub", [] if nparams else None, ([("x", V("i"))] + ([("y", N("2"))] if nparams >= 2 else [])) if nparams else [], [B("+", V("i"), N(j)) for j in range(k)], "sq" if k > 1 else "none")
+    pats.append([("for", "int", "i", ("range", 1, 3, None), [G2("Pre", N("0")), loopsub, G2("Post", V("i"))])])
     if k == 1:
         pats.append([("for", "int", "i", ("range", 0, 3, None), [call("Sub", nparams, [V("i")])])])
         pats.append([("decl", "int", "n", N("6")), call("Sub", nparams, [B("+", V("n"), N("1"))]), call("Sub", nparams, [V("n")])])
@@ -313,7 +317,7 @@ def case_F(c):
         F.clean()
 
 
-GRAPHS = ["diamond", "diamond-direct", "util-then-a", "a-then-util", "b-includes-a", "diamond-spellings", "same-string-different-files", "three-levels-shared-leaf"]
+GRAPHS = ["same-string-nested-then-own", "diamond", "diamond-direct", "util-then-a", "a-then-util", "b-includes-a", "diamond-spellings", "same-string-different-files", "three-levels-shared-leaf"]
 
 
 def case_D(c):
@@ -361,6 +365,15 @@ def case_D(c):
             lib[("Bb", "util.xbb")] = u2
             incs = ["x/a.xbb", "y/b.xbb"]
             items = [acall, bcall, acall]
+        elif graph == "same-string-nested-then-own":
+            # lib/outer.xbb includes ITS util.xbb (program Vtil); main then includes its OWN util.xbb (program Util): same string, two files
+            u_lib = dict(sub_ast("Vtil", [0, 1], np_))
+            outer = dict(name="Outer", version="1.0", includes=["util.xbb"], items=[call("Vtil", np_, [1, 0], ("-1.5", "3")), ("stmt", "R", None, [], [N("1")], "none")])
+            files = {"lib/outer.xbb": outer, "lib/util.xbb": u_lib, "util.xbb": util}
+            lib[("Outer", "util.xbb")] = u_lib
+            lib[("M", "util.xbb")] = util
+            incs = ["lib/outer.xbb", "util.xbb"]
+            items = [("stmt", "Outer", None, [], [N("6"), N("7")], "sq"), ucall([9, 8], "2"), call("Vtil", np_, [3, 2], ("0.5", "3"))]
         elif graph == "three-levels-shared-leaf":
             top = dict(name="Top", version="1.0", includes=["a.xbb", "util.xbb"], items=[("stmt", "Aa", None, [], [N("1"), N("0")], "sq"), ucall([0, 1], "4")])
             files = {"a.xbb": a, "top.xbb": top, "util.xbb": util, "b.xbb": b}
